@@ -11,7 +11,8 @@ EXPLANATION = (
     "receiver clone that is then moved into the forwarder, with no other seen-marking access in between (an update "
     "landing between snapshot and forwarder start is still forwarded), and a transported sender's forwarder uses the "
     "receiver of the channel created from the carried snapshot; R15.3 the remote->local direction (recv_impl) applies "
-    "values sequentially (no spawn; shared with R04.3). Monotonicity and convergence themselves rest on chmux ordering "
+    "values sequentially (no spawn; shared with R04.3); R15.3 the forwarding loop is left for a gone sender only through "
+    "the Err of changed() (never through has_changed() and the like, which report closure before an unseen value). Monotonicity and convergence themselves rest on chmux ordering "
     "(C01) and tokio::sync::watch, which are trusted."
 )
 ASSUMPTIONS = ["tokio::sync::watch: changed() completes iff an unseen version exists; borrow_and_update marks seen",
@@ -110,7 +111,39 @@ def r15_2(ck, F):
               "the received sender's channel is not initialised with the carried value", d.loc(0))
 
 
+def r15_3(ck, F):
+    ck.rule("R15.3", "the last value is not abandoned: inside watch::send_impl's forwarding loop no branch on a "
+            "tokio::sync::watch::Receiver state query other than changed() (has_changed, borrow().has_changed, same_channel …) "
+            "forces the loop to end; the only sender-gone exit is the Err result of changed(), which tokio returns only when no "
+            "unseen value is left", "a value sent immediately before the sender is dropped is never forwarded: has_changed() "
+            "reports the closed channel before the unseen value", floor=2)
+    b = F.main_body("rch::watch::send_impl")
+    sels = select_info(b)
+    ch = [(s, a) for s in sels for a in s["arms"].values() if a["fut"] == "tokio::sync::watch::Receiver::changed"]
+    if not ch:
+        raise mir.AnchorMissing("changed() branch of the select in watch::send_impl")
+    s, arm = ch[0]
+    poll = s["poll_bb"]
+    # exit through changed() == Err exists
+    errs = [tb for sb, tb, m, e in switch_edges(b, lambda e: e[0] == "discr", b.reach([arm["target"]], avoid=[poll]))
+            if m == "Err" and poll not in b.reach([tb], avoid=[sb])]
+    ck.expect(bool(errs), "send_impl#exit-on-changed-err", "the loop ends when changed() returns Err (sender gone and nothing unseen)",
+              "watch::send_impl has no exit on changed() == Err", b.loc(arm["target"]))
+    W = "tokio::sync::watch::Receiver::"
+    allowed = {W + "changed", W + "borrow_and_update"}
+    bad = []
+    for sb, tb, m, e in switch_edges(b, lambda e: any(c[1].startswith(W) and c[1] not in allowed for c in mir.calls_in(e)) or
+                                     any(c[1].startswith("tokio::sync::watch::Ref::has_changed") for c in mir.calls_in(e))):
+        if b.is_cleanup(sb) or poll not in b.reach([sb]) and poll not in b.reach([0], avoid=[sb]):
+            continue
+        if poll not in b.reach([tb], avoid=[sb]):
+            bad.append((sb, sorted({c[1].split("::")[-1] for c in mir.calls_in(e) if "watch" in c[1]})))
+    ck.expect(not bad, "send_impl#no-exit-on-state-query", "no forced exit on a watch state query",
+              f"watch::send_impl leaves the forwarding loop on {bad[0][1] if bad else ''}: an unseen last value is dropped",
+              b.loc(bad[0][0]) if bad else b.loc(0))
+
+
 def run(ck, F):
-    for r in (r15_1, r15_2):
+    for r in (r15_1, r15_2, r15_3):
         ck.run_rule(r)
     ck.run_rule(c04.r04_3)
